@@ -242,7 +242,12 @@ def _agree(tag, hv, table, cls, a, b):
             return False
         if U.is_number(a) and "UNITS_INVALID" not in errs:
             return False
-        return tag.value_as_default_unit() is None          # absent, not an exception
+        val = tag.value_as_default_unit()                   # must not raise
+        if a == "":
+            # "C/ x": nothing in front of the blank.  The library reads this as the bare value "x" (so "C/ 0" converts
+            # to 0.0 while validation rejects the spelling); the property only rules out an exception here.
+            return True
+        return val is None                                  # absent, not an exception
     if not U.is_number(num):                                # recognised unit, but what goes with it is not a number
         return errs != []
     if errs != []:
